@@ -134,6 +134,19 @@ def is_zero_const(a):
 
 def mul(a, b):
     a, b = _b2i(a), _b2i(b)
+    if isinstance(b, PermMat) and isinstance(a, Mat):
+        # (M * P).col(j) == M.col(indices[j])
+        idx = b.indices()
+        if a.c != b.n:
+            raise EvalError('matrix * permutation: size mismatch')
+        return Mat(a.r, a.c, [[a.d[i][idx[j]] for j in range(a.c)] for i in range(a.r)], a.kind, a.cplx)
+    if isinstance(a, PermMat) and isinstance(b, Mat):
+        # (P * M).row(indices[i]) == M.row(i)
+        idx = a.indices()
+        out = [None] * b.r
+        for i in range(b.r):
+            out[idx[i]] = list(b.d[i])
+        return Mat(b.r, b.c, out, b.kind, b.cplx)
     if isinstance(a, Mat) or isinstance(b, Mat):
         return mat_mul(a, b)
     if (_is_dim(a) or _is_dim(b)) and not (isinstance(a, Cx) or isinstance(b, Cx)):
@@ -432,6 +445,30 @@ class MatView(Mat):
         tmp_other = Mat(other.r, other.c, [list(r) for r in other.d], other.kind, other.cplx)
         self.write_back(tmp_other)
         other.write_back(tmp_self)
+
+class PermMat:
+    """Eigen::PermutationMatrix<N>: (M * P).col(j) == M.col(indices[j]);  (v^T * P)(j) == v(indices[j])"""
+    def __init__(self, n):
+        self.n = n
+        self.idx = Mat(n, 1, [[i] for i in range(n)], 'matrix', False)
+    def indices(self):
+        return [self.idx.d[i][0] for i in range(self.n)]
+
+class SegView(Mat):
+    """v.segment<K>(start): a copy that writes back into its parent vector"""
+    def __init__(self, parent, start, length):
+        el = parent.elems()[start:start + length]
+        Mat.__init__(self, length, 1, [[x] for x in el], parent.kind, parent.cplx)
+        self.parent, self.start = parent, start
+    def write_back(self):
+        p = self.parent
+        xs = self.elems()
+        for k, x in enumerate(xs):
+            i = self.start + k
+            if p.c == 1:
+                p.d[i][0] = x
+            else:
+                p.d[0][i] = x
 
 class DataView:
     """m.data(): column-major element access"""
